@@ -225,3 +225,8 @@ mod tests {
         }
     }
 }
+
+// verification hook (add-only, inert unless built by `cargo kani`, which sets --cfg kani)
+#[cfg(kani)]
+#[path = "/verif/kani/mpi_harness.rs"]
+mod verif_kani;
